@@ -265,7 +265,12 @@ func (r *c30run) midFlight(kind int) error {
 		for k := range fin {
 			if _, ok := seen[k]; !ok {
 				r.st.bwdMissedFinished++
-				break
+				// Required since the repair of the C07 finding (Iterator.Prev / Last go
+				// through Skiplist.getPrev, which treats the next links as
+				// authoritative): a node whose Add returned is linked at level 0, so a
+				// backward traversal that starts afterwards reaches it even while a
+				// neighbour's prev link is still pending.
+				return fmt.Errorf("mid-flight backward scan misses %s whose Add already returned nil; scan=%s", k, fmtKVs(b))
 			}
 		}
 		if inflight == 0 {
@@ -916,7 +921,7 @@ func TestC30(t *testing.T) {
 			"hook H2 (verifhook.Yield sites in addInternal, verifhook.SklHeight) does not change behaviour other than scheduling and tower height",
 			"interleavings are explored at yield-site granularity: code between two yield sites of one inserter runs atomically",
 			"the arena (64 KiB) never fills",
-			"mid-flight backward scans are only required to be an ordered subset of started keys (prev links of finished nodes may lag, skl.go:38-40)",
+			"mid-flight backward scans must be an ordered subset of started keys and, since the repair of the C07 finding (Prev/Last go through Skiplist.getPrev), contain every key whose Add already returned",
 		},
 		Gen: genC30, Exec: execC30, Quick: 3000, Thorough: 100000,
 		Known: []evid.Known[PlanC30]{{Signature: sigInserterDup, Plan: PlanC30{
